@@ -2,7 +2,7 @@
     This file only pins statements: every theorem restates a lemma of proofs/ verbatim and is closed by it. *)
 From CacheD Require Import Base Sketch Model Window Micro.
 From CacheD.proofs Require Import Defs ApiProofs HistoryProofs StatsProofs.
-From CacheD.proofs Require Import MicroProofs MicroLedger MicroCharged.
+From CacheD.proofs Require Import MicroProofs MicroLedger MicroCharged MicroFlow.
 
 (** (C05, C01 at every micro state of every micro schedule, no condition on the events): as long as the worker has
    not panicked, the total weight is exactly the sum of the charges, the charged ids are pairwise distinct, every charge
@@ -29,6 +29,14 @@ Theorem C05_micro_ids_fresh_all :
   (forall id wk, alookup id (weights s) = Some wk -> id < next_id s).
 Proof. exact micro_ids_fresh_all. Qed.
 Print Assumptions C05_micro_ids_fresh_all.
+
+(** (ids only flow forward, every micro step, from any state): the id counter never decreases, and every put id that
+   is pending after the step was pending before it or has just been drawn - so an id below the counter that is not pending
+   (an id that has been used) never becomes pending again *)
+Theorem C05_micro_ids_flow_all :
+  forall cfg ms ev, FL (mbase ms) (mbase (fst (mstep cfg ms ev))).
+Proof. exact micro_ids_flow_all. Qed.
+Print Assumptions C05_micro_ids_flow_all.
 
 (** (C05, "no weight stays charged for a key that is gone", at every state of every micro schedule, no condition
    on the events): before shutdown() is called and while the worker has not panicked, every charged id is the id of the
